@@ -191,7 +191,7 @@ def _zip(it, a, kw, node):
         from .term import t_min
         for l in lens[1:]:
             ln = t_min(ln, l)
-        it.emit("zip", seqs=list(a), lens=lens, node=node)
+        it.emit("zip", seqs=list(a), lens=lens, facts=dict(it.facts), node=node)
         return I.SymSeq("zip(" + ",".join(getattr(x, "name", show(x)) for x in a) + ")", tuple(elems), ln, tuple(a))
     return list(zip(*[it.iter_concrete(x, node) for x in a]))
 
